@@ -180,6 +180,18 @@ var zones = []string{"example.com", "test.org", "a.b.c.net", "corp.internal", "x
 
 // Generate makes the plan for (seed, focus, arm).
 func Generate(seed uint64, focus, arm string) *plan.Plan {
+	p := generate(seed, focus, arm)
+	// object-pool poisoning: drawn from its own stream so that the rest of a
+	// seed's plan does not depend on it
+	r2 := &rng{s: seed*0xD1342543DE82EF95 + 0x706f6f6c}
+	if focus == "C20" || r2.p(0.5) {
+		p.Knobs.PoolPoison = true
+		p.Knobs.PoolQuarantine = []int{0, 4, 32}[r2.intn(3)]
+	}
+	return p
+}
+
+func generate(seed uint64, focus, arm string) *plan.Plan {
 	r := &rng{s: seed*0x9E3779B97F4A7C15 + 0x1234567}
 	switch focus {
 	case "C20":
